@@ -106,6 +106,8 @@ struct Cfg {
     drop_params: HashSet<String>,
     impl_of: HashSet<String>,                // foreign types whose (selected) methods are translated here
     f64_decoded: bool,                       // f64 values are decoded doubles (Base/F64.v `fval`), integers are `Z` (api/src/read.rs)
+    wrappers: Option<String>,                // exported functions `T::with_mut(|c| body)` are translated as methods of T
+    derive_eq: bool,                         // emit `T_eqb` for types deriving PartialEq
 }
 
 struct Tr {
@@ -568,7 +570,8 @@ impl<'a> Fx<'a> {
             (Ty::Bool, Ty::Int(_)) => Ok((format!("(if {} then 1 else 0)", a), to)),
             // an integer cast to a raw pointer keeps the low `usize` bits; it stays a number here
             (Ty::Int(_), Ty::Ptr) => Ok((format!("(u_cast W {})", a), Ty::Int("usize".into()))),
-            (Ty::Ptr, Ty::Int(_)) | (Ty::Ptr, Ty::Ptr) => Ok((a, to)),
+            (Ty::Ptr, Ty::Int(_)) => Ok((format!("(ptr_val {})", a), to)),
+            (Ty::Ptr, Ty::Ptr) => Ok((a, to)),
             (Ty::Unknown, Ty::Int(t)) => Ok((format!("(u_cast {} {})", self.bits_of(t), a), to)),
             _ => err(&format!("cast from {:?} to {:?}", from, to), sp),
         }
@@ -722,6 +725,11 @@ impl<'a> Fx<'a> {
             }
             Le(_) if self.tr.cfg.f64_decoded && (lt == Ty::F64 || rt == Ty::F64) => (format!("(f_le {} {})", l, r), Ty::Bool),
             Ge(_) if self.tr.cfg.f64_decoded && (lt == Ty::F64 || rt == Ty::F64) => (format!("(f_le {} {})", r, l), Ty::Bool),
+            Eq(_) | Ne(_) if matches!(&lt, Ty::Named(_)) || matches!(&rt, Ty::Named(_)) => {
+                let n = match (&lt, &rt) { (Ty::Named(n), _) | (_, Ty::Named(n)) => n.clone(), _ => unreachable!() };
+                let eq = format!("({}_eqb {} {})", n, l, r);
+                (if matches!(b.op, Eq(_)) { eq } else { format!("(negb {})", eq) }, Ty::Bool)
+            }
             Eq(_) | Ne(_) => {
                 let eq = if lt == Ty::Bool || rt == Ty::Bool {
                     format!("(Bool.eqb {} {})", l, r)
@@ -777,6 +785,19 @@ impl<'a> Fx<'a> {
                 self.bind_pat(&pt.pat, atom, if t2 == Ty::Unknown { t } else { t2 }, pre)
             }
             Pat::Wild(_) => Ok(()),
+            Pat::Struct(ps) => {
+                // `let T { a, b, .. } = &x;`: read-only views of the fields
+                let owner = self.type_of_path(&ps.path)?;
+                let fields = self.tr.structs.get(&owner).ok_or(format!("T8: unknown struct {} in a pattern", owner))?.clone();
+                for fp in &ps.fields {
+                    let fname = match &fp.member { Member::Named(i) => i.to_string(), Member::Unnamed(i) => format!("f{}", i.index) };
+                    let fty = fields.iter().find(|(n, _)| *n == fname).map(|(_, t)| t.clone()).ok_or(format!("T8: unknown field {}.{}", owner, fname))?;
+                    let _ = writeln!(pre, "let {} := ({}_{} {}) in", fname, owner, fname, atom);
+                    self.alias.remove(&fname);
+                    self.tyenv.insert(fname, fty);
+                }
+                Ok(())
+            }
             Pat::Tuple(tp) => {
                 let mut names = vec![];
                 let tys = match t {
@@ -805,7 +826,7 @@ impl<'a> Fx<'a> {
     fn method_call(&mut self, m: &ExprMethodCall, pre: &mut String) -> R<(String, Ty)> {
         let name = m.method.to_string();
         let args: Vec<&Expr> = m.args.iter().collect();
-        if args.is_empty() && matches!(name.as_str(), "as_slice" | "as_mut_vec" | "as_mut_slice" | "as_vec") {
+        if args.is_empty() && matches!(name.as_str(), "as_slice" | "as_mut_vec" | "as_mut_slice" | "as_vec" | "to_vec") {
             return self.expr(&m.receiver, pre);
         }
         // `encode::write_x(&mut buf, args..).unwrap()`: the encoder appends to the buffer and cannot fail on a Vec
@@ -1685,6 +1706,8 @@ fn main() {
         drop_params: HashSet::new(),
         impl_of: HashSet::new(),
         f64_decoded: false,
+        wrappers: None,
+        derive_eq: false,
     };
     let mut emit_consts = true;
     let mut i = 1;
@@ -1730,6 +1753,8 @@ fn main() {
                 let (f, t) = b.split_once(':').expect("--extern-fn path=f:Type");
                 cfg.extern_fns.insert(a.into(), (f.into(), t.into()));
             }
+            "--wrappers" => cfg.wrappers = Some(v.clone()),
+            "--derive-eq" => { cfg.derive_eq = true; i += 1; continue; }
             "--f64-decoded" => { cfg.f64_decoded = true; i += 1; continue; }
             "--impl-of" => { cfg.impl_of.extend(v.split(',').map(|s| s.to_string())); }
             "--drop-param" => { cfg.drop_params.extend(v.split(',').map(|s| s.to_string())); }
@@ -1977,6 +2002,50 @@ fn run(src: &str, types: &[String], imports: &[String], cfg: Cfg, emit_consts: b
             }
         }
     }
+    // exported wrappers: `fn f(args) -> R { T::with_mut(|c| body) }` (also inside `decorate_for_target! { .. }`) become methods
+    // of T with the closure parameter as the receiver
+    if let Some(wt) = tr.cfg.wrappers.clone() {
+        let mut fns: Vec<ItemFn> = vec![];
+        for it in &file.items {
+            match it {
+                Item::Fn(f) if !has_cfg_test(&f.attrs) => fns.push(f.clone()),
+                Item::Macro(m) if m.mac.path.segments.last().map_or(false, |s| s.ident == "decorate_for_target") => {
+                    if let Ok(f) = syn::parse2::<ItemFn>(m.mac.tokens.clone()) { fns.push(f); }
+                }
+                _ => {}
+            }
+        }
+        for f in fns {
+            let name = f.sig.ident.to_string();
+            if tr.cfg.skip_fns.contains(&name) { continue; }
+            if let Some(only) = &tr.cfg.only_fns { if !only.contains(&name) { continue; } }
+            // body must be exactly `T::with_mut(|c| ..)` / `T::with(|c| ..)`
+            let tail = match f.block.stmts.as_slice() { [Stmt::Expr(e, None)] => e.clone(), _ => continue };
+            let (is_mut, closure) = match &tail {
+                Expr::Call(c) => match (&*c.func, c.args.first()) {
+                    (Expr::Path(p), Some(Expr::Closure(cl))) => {
+                        let sg = path_str(&p.path);
+                        if sg.len() == 2 && sg[0] == wt && (sg[1] == "with_mut" || sg[1] == "with") { (sg[1] == "with_mut", cl.clone()) } else { continue }
+                    }
+                    _ => continue,
+                },
+                _ => continue,
+            };
+            let cparam = match closure.inputs.first() { Some(Pat::Ident(i)) => i.ident.to_string(), _ => continue };
+            use quote::ToTokens;
+            let body_txt = closure.body.to_token_stream().to_string();
+            // the closure parameter is the receiver
+            let mut out = String::new(); let mut word = String::new();
+            for ch in body_txt.chars().chain(std::iter::once(' ')) {
+                if ch.is_alphanumeric() || ch == '_' { word.push(ch); } else { if word == cparam { out.push_str("self"); } else { out.push_str(&word); } word.clear(); out.push(ch); }
+            }
+            let block: Block = match syn::parse_str::<Block>(&out) { Ok(b) => b, Err(_) => syn::parse_str::<Block>(&format!("{{ {} }}", out)).map_err(|e| format!("T8: wrapper {}: {}", name, e))? };
+            let mut sig = sig_of(&tr, &wt, &f.sig)?;
+            sig.recv = Some(is_mut);
+            tr.sigs.insert((wt.clone(), name.clone()), sig.clone());
+            bodies.push((sig, block, f.span().start().line));
+        }
+    }
     // translate bodies
     let mut defs: Vec<(String, String, Vec<(String, String)>)> = vec![]; // (key, text, callees)
     for (sig, block, line) in &bodies {
@@ -2061,6 +2130,10 @@ fn run(src: &str, types: &[String], imports: &[String], cfg: Cfg, emit_consts: b
                 let args: Vec<String> = fs.iter().enumerate().map(|(j, (g, _))| if j == k { "v".to_string() } else { format!("({}_{} s)", n, g) }).collect();
                 let _ = writeln!(o, "Definition {}_set_{} (s : {}) (v : {}) : {} := mk{} {}.", n, f, n, t.coq(), n, n, args.join(" "));
             }
+            if tr.cfg.derive_eq && fs.iter().all(|(_, t)| eqb_of(t).is_some()) {
+                let conj: Vec<String> = fs.iter().map(|(f, t)| eqb_of(t).unwrap().replace("{a}", &format!("({}_{} a)", n, f)).replace("{b}", &format!("({}_{} b)", n, f))).collect();
+                let _ = writeln!(o, "(* #[derive(PartialEq)] *)\nDefinition {}_eqb (a b : {}) : bool := {}.", n, n, if conj.is_empty() { "true".to_string() } else { conj.join(" && ") });
+            }
         } else if let Some(vs) = tr.enums.get(n) {
             let _ = writeln!(o, "Inductive {} :=", n);
             for (v, ts) in vs {
@@ -2068,6 +2141,16 @@ fn run(src: &str, types: &[String], imports: &[String], cfg: Cfg, emit_consts: b
                 let _ = writeln!(o, "| {}_{} {}", n, v, args.join(" "));
             }
             let _ = writeln!(o, ".");
+            if tr.cfg.derive_eq && vs.iter().all(|(_, ts)| ts.iter().all(|t| eqb_of(t).is_some())) {
+                let _ = writeln!(o, "(* #[derive(PartialEq)] *)\nDefinition {}_eqb (a b : {}) : bool :=\n  match a, b with", n, n);
+                for (v, ts) in vs {
+                    let xs: Vec<String> = (0..ts.len()).map(|k| format!("x{}", k)).collect();
+                    let ys: Vec<String> = (0..ts.len()).map(|k| format!("y{}", k)).collect();
+                    let conj: Vec<String> = ts.iter().enumerate().map(|(k, t)| eqb_of(t).unwrap().replace("{a}", &xs[k]).replace("{b}", &ys[k])).collect();
+                    let _ = writeln!(o, "  | {}_{} {}, {}_{} {} => {}", n, v, xs.join(" "), n, v, ys.join(" "), if conj.is_empty() { "true".to_string() } else { conj.join(" && ") });
+                }
+                let _ = writeln!(o, "  | _, _ => false\n  end.");
+            }
             if let Some(ds) = discr.get(n) {
                 // discriminants of a C-like enum (implicit ones continue from the previous)
                 let mut fx = Fx { tr: &tr, self_ty: n.clone(), outs: vec![], ret: Ty::Unit, tyenv: HashMap::new(), alias: HashMap::new(), fresh: 0, calls: vec![], ptr_src: HashMap::new() };
@@ -2166,6 +2249,17 @@ fn calls_fn(body: &str, pat: &str) -> bool {
 }
 
 /// the payload of a Result/Option: may itself contain Option (e.g. `(Self, Option<usize>)`)
+/// the boolean equality of a type, as a template over `{a}` / `{b}` (None: not supported)
+fn eqb_of(t: &Ty) -> Option<String> {
+    match t {
+        Ty::Int(k) if is_signed(k) => Some("(Z.eqb {a} {b})".into()),
+        Ty::Int(_) | Ty::Extern(_) => Some("({a} =? {b})".into()),
+        Ty::Bool => Some("(Bool.eqb {a} {b})".into()),
+        Ty::Named(n) => Some(format!("({}_eqb {{a}} {{b}})", n)),
+        _ => None,
+    }
+}
+
 fn ret_inner(tr: &Tr, t: &Type) -> R<Ty> {
     match t {
         Type::Tuple(tt) => Ok(Ty::Tuple(tt.elems.iter().map(|e| ret_inner(tr, e)).collect::<R<Vec<_>>>()?)),
